@@ -328,6 +328,23 @@ def check(ctx):
            'FULL_LINES arms: same rank -> RANKS_BB[rank], same file -> FILES_BB[file], equal rank+file -> squares with r=c-f, '
            'equal rank-file -> squares with r=c+f (%s)' % why, site=fl.loc())
 
+    # ---- R8 FILL: loop-filled tables are filled completely ---------------------------------------------------------
+    from rules.fill import fill_sites
+    tabs = {'engine::' + t for t in ('RAYS', 'KNIGHT_MASK', 'BISHOP_MASK', 'ROOK_MASK', 'KING_MASK', 'BISHOP_TABLE',
+                                     'ROOK_TABLE', 'LINES', 'FULL_LINES')}
+    n_fill = 0
+    seen_t = set()
+    for f, n, t, dim, ext, itv, lv in fill_sites(p, tabs):
+        n_fill += 1
+        seen_t.add(t)
+        ok = itv is not None and itv[0] == 0 and itv[1] == ext - 1
+        ctx.ob('C11.R8.fill', '%s:%s[dim %d by %s]' % (short(f.name), short(t), dim, lv), ok,
+               'the loop variable `%s` that subscripts %s (extent %d) ranges over exactly 0..%d at the store (interval %s)'
+               % (lv, short(t), ext, ext - 1, itv), site=f.loc(n), sample=(n_fill <= 2 or not ok))
+    ctx.floor('C11.R8.fill', n_fill, 20, 'loop-indexed table stores')
+    ctx.ob('C11.R8.fill-tables', 'tables', seen_t == tabs, 'every geometry table is filled by loops over its whole index range (%s)' % sorted(short(t) for t in tabs - seen_t),
+           site='engine/move_bitboards.cpp')
+
     # ---- R7 witness --------------------------------------------------------------------------------------
     n_as, fails = compile_witness('C11.cc')
     for (fn_, line, msg) in fails:
